@@ -755,7 +755,7 @@ class FnAnalysis:
                 l, p, op = argv[i]
                 path = a[2]
                 if a[0] == "v":
-                    if op[0] in ("cp", "mv") and path and path != ("deep",):
+                    if op is not None and op[0] in ("cp", "mv") and path and path != ("deep",):
                         cells, _s, _i = self.cells_of(op[1], st)
                         for (r, pp) in cells:
                             out |= self.st_read(st, (r, trunc(pp + path)))
